@@ -57,4 +57,7 @@ def run(tier="quick", seed=0, use_cache=True):
         {"rule": "SIZE-WIRING", "facts": out["OO"]["sizes"]["facts"]},
         {"rule": "FAMILY-REG", "module_functions": {f: r["modfuncs"] for f, r in sorted(out.items())[:4]}},
     ]
+    from ..rules import convhelpers
+    convhelpers.extend(res, use_cache, ("CONV-HELPER",))
+    res.explanation += ' CONV-HELPER: the 64-bit conversion helpers accept exactly the in-range argument classes (decided per class against a model of the CPython APIs), as the Python datatypes do.'
     return res
